@@ -865,6 +865,15 @@ func (a *Agent) DownloadAdd(FileID int, FilePath string, FileSize int64) error {
 	/* remove null terminator. goland doesn't like it. */
 	DownloadFile = common.StripNull(DownloadFile)
 
+	/* a running download of this agent already writes to that file: creating it again
+	 * would truncate it and both transfers would overwrite each other's chunks */
+	for _, running := range a.Downloads {
+		if filepath.Clean(running.LocalFile) == filepath.Clean(DemonDownload+"/"+DownloadFile) {
+			logger.Error("File is already being downloaded: " + running.LocalFile)
+			return errors.New("File is already being downloaded (file id " + fmt.Sprintf("%x", running.FileID) + "): " + FilePath)
+		}
+	}
+
 	download.File, err = os.Create(DemonDownload + "/" + DownloadFile)
 	if err != nil {
 		logger.Error("Failed to create file: " + err.Error())
